@@ -47,42 +47,53 @@ func (v *VerifC31) Maintain() {
 	v.c.met.Gauge("cache_recent_dropped_traces", float64(n))
 }
 
-// VerifC31Snap is a read-only copy of the cache state. Cur/Fut are opaque handles on the two filter
+// VerifC31Snap is a read-only view of the dropped side. Cur/Fut are opaque handles on the two filter
 // generations (compare with ==, inspect with VerifC31FilterInfo even after the cache let go of them).
 type VerifC31Snap struct {
 	Cur, Fut any
 	Queued   int
 	NextCap  uint
-	Kept     []string             // "id rate reason" from oldest to newest
-	Recent   map[string]time.Time // raw entries of the recently-dropped set (id -> expiry)
 }
 
 func (v *VerifC31) Snapshot() VerifC31Snap {
 	d := v.c.dropped
 	d.mut.RLock()
-	s := VerifC31Snap{Queued: len(d.addch), NextCap: d.capacity, Recent: map[string]time.Time{}}
+	defer d.mut.RUnlock()
+	s := VerifC31Snap{Queued: len(d.addch), NextCap: d.capacity}
 	if d.current != nil {
 		s.Cur = d.current
 	}
 	if d.future != nil {
 		s.Fut = d.future
 	}
-	d.mut.RUnlock()
+	return s
+}
+
+// Kept lists the kept-decision LRU as "id rate reason" from oldest to newest (no recency update).
+func (v *VerifC31) Kept() []string {
+	var out []string
 	for _, k := range v.c.kept.Keys() {
 		if e, ok := v.c.kept.Peek(k); ok {
 			reason, _ := v.c.keptReasons.Get(uint(e.reason))
-			s.Kept = append(s.Kept, fmt.Sprintf("%s %d %s", k, e.rate, reason))
+			out = append(out, fmt.Sprintf("%s %d %s", k, e.rate, reason))
 		}
 	}
-	var ks []string
-	for k := range v.c.recentDroppedIDs.Items {
-		ks = append(ks, k)
+	return out
+}
+
+// Recent renders the raw entries of the recently-dropped TTL set as "id:offset" relative to now, sorted;
+// entries already expired are rendered "id:x".
+func (v *VerifC31) Recent(now time.Time) []string {
+	var out []string
+	for k, exp := range v.c.recentDroppedIDs.Items {
+		if exp.Before(now) {
+			out = append(out, k+":x")
+		} else {
+			out = append(out, fmt.Sprintf("%s:%d", k, int64(exp.Sub(now))))
+		}
 	}
-	sort.Strings(ks)
-	for _, k := range ks {
-		s.Recent[k] = v.c.recentDroppedIDs.Items[k]
-	}
-	return s
+	sort.Strings(out)
+	return out
 }
 
 // VerifC31FilterInfo reads a filter generation: number of stored fingerprints and the raw bucket layout.
